@@ -6,7 +6,11 @@ SPDX-License-Identifier: Apache-2.0
 
 package encoder
 
-import "encoding/base64"
+import (
+	"encoding/base64"
+	"errors"
+	"strings"
+)
 
 // EncodeToString encodes the bytes to string.
 func EncodeToString(data []byte) string {
@@ -15,5 +19,10 @@ func EncodeToString(data []byte) string {
 
 // DecodeString decodes the encoded content to Bytes.
 func DecodeString(encodedContent string) ([]byte, error) {
+	// the standard decoder skips line breaks; they are not part of the base64url alphabet (RFC 4648, section 3.3)
+	if strings.ContainsAny(encodedContent, "\r\n") {
+		return nil, errors.New("illegal base64 data: line break in input")
+	}
+
 	return base64.RawURLEncoding.DecodeString(encodedContent)
 }
